@@ -31,8 +31,14 @@ def main():
     assert rc == 0, o
     try:
         feats = []
-        if "ffi" in open(demo).read() or "extern \"C\"" in open(demo).read():
-            feats = ["--features", "ffi"]
+        text = open(demo).read()
+        fl = []
+        if "ffi" in text or "extern \"C\"" in text:
+            fl.append("ffi")
+        if "CARGO_BIN_EXE" in text or "feature = \"cli\"" in text or "--features cli" in text:
+            fl.append("cli")
+        if fl:
+            feats = ["--features", " ".join(fl)]
         td = ["--target-dir", wt + "/target"]
         os.makedirs(os.path.join(wt, "tests"), exist_ok=True)
         shutil.copy(demo, os.path.join(wt, "tests", "seed_demo.rs"))
